@@ -201,6 +201,15 @@ def as_frac(x):
 
 
 # ----------------------------------------------------------------------------- findings
+def flag(name):
+    """feature switches of the envelope file (a section of that name exists); lets a new family be committed before it is switched on"""
+    import json as _j
+    try:
+        return bool(_j.load(open(os.environ.get('VERIF_ENVELOPES') or os.path.join(VERIF, 'envelopes.json'))).get(name))
+    except (OSError, ValueError):
+        return False
+
+
 def load_findings():
     p = os.path.join(VERIF, 'known_findings.json')
     if not os.path.exists(p):
